@@ -110,6 +110,13 @@ struct is_view_like<T, decltype(void(sbepp::addressof(std::declval<T&>())))> : s
 {
 };
 
+// true for views / array refs over a const byte type: mutating ops do not exist for them
+template<class V>
+constexpr bool is_ro()
+{
+    return std::is_const<sbepp::byte_type_t<V>>::value;
+}
+
 // generic bits of anything a visitor or accessor can hand out
 template<class T>
 void describe(const Ctx& cx, T v, bool& has_bits, u64& bits, bool& has_addr, long long& addr_off, u64& size)
@@ -209,9 +216,14 @@ void array_op(Ctx& cx, A a)
         else
             rs.unsupported = true;
         break;
-    case A_FILL: a.fill(static_cast<V>(rq.arg)); break;
+    case A_FILL:
+        if constexpr(!is_ro<A>())
+            a.fill(static_cast<V>(rq.arg));
+        else
+            rs.unsupported = true;
+        break;
     case A_ASSIGN_STRING:
-    if constexpr(!std::is_same<V, char>::value)
+    if constexpr(!std::is_same<V, char>::value || is_ro<A>())
         rs.unsupported = true;
     else
     {
@@ -243,15 +255,18 @@ void array_op(Ctx& cx, A a)
         break;
     }
     case A_RAW_WRITE:
-    {
-        auto r = a.raw();
-        if(r.size())
+        if constexpr(!is_ro<A>())
         {
-            auto last = r[r.size() - 1];
-            r[r.size() - 1] = last;
+            auto r = a.raw();
+            if(r.size())
+            {
+                auto last = r[r.size() - 1];
+                r[r.size() - 1] = last;
+            }
         }
+        else
+            rs.unsupported = true;
         break;
-    }
     case A_REVERSE:
     {
         u64 sum = 0;
@@ -260,13 +275,21 @@ void array_op(Ctx& cx, A a)
         rs.bits = sum;
         break;
     }
-    case A_ASSIGN_N: a.assign(a.size(), static_cast<V>(rq.arg)); break;
-    case A_ASSIGN_RANGE:
-    {
-        std::vector<V> src(a.size(), static_cast<V>(rq.arg));
-        a.assign_range(src);
+    case A_ASSIGN_N:
+        if constexpr(!is_ro<A>())
+            a.assign(a.size(), static_cast<V>(rq.arg));
+        else
+            rs.unsupported = true;
         break;
-    }
+    case A_ASSIGN_RANGE:
+        if constexpr(!is_ro<A>())
+        {
+            std::vector<V> src(a.size(), static_cast<V>(rq.arg));
+            a.assign_range(src);
+        }
+        else
+            rs.unsupported = true;
+        break;
     default: rs.unsupported = true;
     }
 }
@@ -370,12 +393,22 @@ void field_op(Ctx& cx, View v, K k, Comp, Acc acc, Tag, std::size_t cdepth)
             rs.has_bits = true;
             rs.bits = value_bits(k, acc(v));
             break;
-        case SET: acc(v, make_value<T>(k, rq.arg)); break;
+        case SET:
+            if constexpr(!is_ro<View>())
+                acc(v, make_value<T>(k, rq.arg));
+            else
+                rs.unsupported = true;
+            break;
         case GET_BY_TAG:
             rs.has_bits = true;
             rs.bits = value_bits(k, sbepp::get_by_tag<TagT>(v));
             break;
-        case SET_BY_TAG: sbepp::set_by_tag<TagT>(v, make_value<T>(k, rq.arg)); break;
+        case SET_BY_TAG:
+            if constexpr(!is_ro<View>())
+                sbepp::set_by_tag<TagT>(v, make_value<T>(k, rq.arg));
+            else
+                rs.unsupported = true;
+            break;
         default: rs.unsupported = true;
         }
     }
@@ -431,8 +464,11 @@ void group_op(Ctx& cx, G g, Flat)
         auto h = sbepp::get_header(g);
         auto bl = h.blockLength();
         auto num = h.numInGroup();
-        h.blockLength(bl);
-        h.numInGroup(num);
+        if constexpr(!is_ro<G>())
+        {
+            h.blockLength(bl);
+            h.numInGroup(num);
+        }
         rs.has_bits = true;
         rs.bits = to_bits(bl.value()) * 1000003ULL + to_bits(num.value());
         break;
@@ -484,15 +520,28 @@ void group_op(Ctx& cx, G g, Flat)
         else
             rs.unsupported = true;
         break;
-    case G_RESIZE: g.resize((size_type)rq.arg); break;
-    case G_CLEAR: g.clear(); break;
-    case G_FILL_HEADER:
-    {
-        auto h = sbepp::fill_group_header(g, (size_type)rq.arg);
-        rs.has_addr = true;
-        rs.addr_off = cx.off(sbepp::addressof(h));
+    case G_RESIZE:
+        if constexpr(!is_ro<G>())
+            g.resize((size_type)rq.arg);
+        else
+            rs.unsupported = true;
         break;
-    }
+    case G_CLEAR:
+        if constexpr(!is_ro<G>())
+            g.clear();
+        else
+            rs.unsupported = true;
+        break;
+    case G_FILL_HEADER:
+        if constexpr(!is_ro<G>())
+        {
+            auto h = sbepp::fill_group_header(g, (size_type)rq.arg);
+            rs.has_addr = true;
+            rs.addr_off = cx.off(sbepp::addressof(h));
+        }
+        else
+            rs.unsupported = true;
+        break;
     default: rs.unsupported = true;
     }
 }
@@ -539,9 +588,22 @@ void data_op(Ctx& cx, D d)
         rs.has_bits = true;
         rs.bits = sbepp::size_bytes(d);
         break;
-    case D_RESIZE: d.resize((size_type)rq.arg); break;
-    case D_PUSH_BACK: d.push_back(static_cast<V>(rq.arg)); break;
+    case D_RESIZE:
+        if constexpr(!is_ro<D>())
+            d.resize((size_type)rq.arg);
+        else
+            rs.unsupported = true;
+        break;
+    case D_PUSH_BACK:
+        if constexpr(!is_ro<D>())
+            d.push_back(static_cast<V>(rq.arg));
+        else
+            rs.unsupported = true;
+        break;
     case D_ASSIGN_STRING:
+    if constexpr(is_ro<D>())
+        rs.unsupported = true;
+    else
     {
         char buf[64];
         std::size_t len = (std::size_t)rq.arg < sizeof(buf) - 1 ? (std::size_t)rq.arg : sizeof(buf) - 1;
@@ -551,7 +613,12 @@ void data_op(Ctx& cx, D d)
         d.assign_string(cstr);
         break;
     }
-    case D_CLEAR: d.clear(); break;
+    case D_CLEAR:
+        if constexpr(!is_ro<D>())
+            d.clear();
+        else
+            rs.unsupported = true;
+        break;
     default: rs.unsupported = true;
     }
 }
@@ -1173,7 +1240,13 @@ void message_op(Ctx& cx, const SchemaShape& sh)
     }
     if(rq.target != T_MESSAGE)
     {
-        at_level<L, MV, TagId>(cx, m, 0);
+        if(rq.via_const_view)
+        {
+            CMV cm = m; // the converting constructor must carry the bounds along
+            at_level<L, CMV, TagId>(cx, cm, 0);
+        }
+        else
+            at_level<L, MV, TagId>(cx, m, 0);
         return;
     }
     switch(rq.sub)
